@@ -14,26 +14,62 @@ def Good (H : HashFn) (D : Decomp) (hdr : Hdr) (p : Bytes) : Prop :=
     D stored dict = some p ∧ p.length = ch.len ∧ H hdr.chunkHashType stored = some d ∧
     (if ch.compLen = 0 then zeros d.length else d) = ch.digest
 
-/-- `b` extends `a` by the decoded content of verified chunks only -/
-def Rel (H : HashFn) (D : Decomp) (hdr : Hdr) (a b : Bytes) : Prop :=
-  ∃ G : List Bytes, (∀ p ∈ G, Good H D hdr p) ∧ b = a ++ G.flatten
+/-- `x` is made of contiguous pieces of decoded content of verified chunks: every byte of `x`
+was produced by the codec from stored bytes that match the index checksum of a chunk -/
+def Ver (H : HashFn) (D : Decomp) (hdr : Hdr) (x : Bytes) : Prop :=
+  ∃ segs : List Bytes, x = segs.flatten ∧
+    ∀ s ∈ segs, ∃ p pre suf, Good H D hdr p ∧ p = pre ++ s ++ suf
 
-theorem Rel.refl (H : HashFn) (D : Decomp) (hdr : Hdr) (a : Bytes) : Rel H D hdr a a :=
-  ⟨[], by simp, by simp⟩
+theorem Ver.nil (H : HashFn) (D : Decomp) (hdr : Hdr) : Ver H D hdr [] := ⟨[], rfl, by simp⟩
 
-theorem Rel.trans {H : HashFn} {D : Decomp} {hdr : Hdr} {a b c : Bytes}
-    (h1 : Rel H D hdr a b) (h2 : Rel H D hdr b c) : Rel H D hdr a c := by
-  obtain ⟨G1, g1, e1⟩ := h1
-  obtain ⟨G2, g2, e2⟩ := h2
-  refine ⟨G1 ++ G2, ?_, ?_⟩
-  · intro p hp
-    rcases List.mem_append.mp hp with h | h
-    · exact g1 p h
-    · exact g2 p h
-  · rw [e2, e1]; simp [List.append_assoc]
+theorem Ver.good {H : HashFn} {D : Decomp} {hdr : Hdr} {p : Bytes} (h : Good H D hdr p) : Ver H D hdr p :=
+  ⟨[p], by simp, by intro s hs; simp at hs; subst hs; exact ⟨s, [], [], h, by simp⟩⟩
 
-theorem Rel.of_eq {H : HashFn} {D : Decomp} {hdr : Hdr} {a b : Bytes} (h : b = a) : Rel H D hdr a b :=
-  h ▸ Rel.refl H D hdr a
+theorem Ver.append {H : HashFn} {D : Decomp} {hdr : Hdr} {a b : Bytes}
+    (ha : Ver H D hdr a) (hb : Ver H D hdr b) : Ver H D hdr (a ++ b) := by
+  obtain ⟨sa, ea, ga⟩ := ha
+  obtain ⟨sb, eb, gb⟩ := hb
+  refine ⟨sa ++ sb, by rw [ea, eb, List.flatten_append], ?_⟩
+  intro s hs
+  rcases List.mem_append.mp hs with h | h
+  · exact ga s h
+  · exact gb s h
+
+theorem Ver.take {H : HashFn} {D : Decomp} {hdr : Hdr} {a : Bytes} (k : Nat)
+    (ha : Ver H D hdr a) : Ver H D hdr (a.take k) := by
+  obtain ⟨segs, ea, ga⟩ := ha
+  subst ea
+  induction segs generalizing k with
+  | nil => simpa using Ver.nil H D hdr
+  | cons s rest ih =>
+    simp only [List.flatten_cons, List.take_append]
+    have hs : Ver H D hdr (s.take k) := by
+      obtain ⟨p, pre, suf, gp, ep⟩ := ga s (by simp)
+      refine ⟨[s.take k], by simp, ?_⟩
+      intro t ht; simp at ht; subst ht
+      refine ⟨p, pre, s.drop k ++ suf, gp, ?_⟩
+      rw [ep]
+      simp only [List.append_assoc]
+      rw [← List.append_assoc (s.take k), List.take_append_drop]
+    exact Ver.append hs (ih (k - s.length) (fun t ht => ga t (by simp [ht])))
+
+theorem Ver.drop {H : HashFn} {D : Decomp} {hdr : Hdr} {a : Bytes} (k : Nat)
+    (ha : Ver H D hdr a) : Ver H D hdr (a.drop k) := by
+  obtain ⟨segs, ea, ga⟩ := ha
+  subst ea
+  induction segs generalizing k with
+  | nil => simpa using Ver.nil H D hdr
+  | cons s rest ih =>
+    simp only [List.flatten_cons, List.drop_append]
+    have hs : Ver H D hdr (s.drop k) := by
+      obtain ⟨p, pre, suf, gp, ep⟩ := ga s (by simp)
+      refine ⟨[s.drop k], by simp, ?_⟩
+      intro t ht; simp at ht; subst ht
+      refine ⟨p, pre ++ s.take k, suf, gp, ?_⟩
+      rw [ep]
+      simp only [List.append_assoc]
+      rw [← List.append_assoc (s.take k), List.take_append_drop]
+    exact Ver.append hs (ih (k - s.length) (fun t ht => ga t (by simp [ht])))
 
 theorem chunkAt_mem (c : Ctx) (k : Nat) (ch : Chunk) (h : chunkAt c k = some ch) : ch ∈ c.hdr.chunks := by
   unfold chunkAt at h
@@ -67,6 +103,9 @@ theorem endDchunk_ok (H : HashFn) (D : Decomp) (c : Ctx) (k : Nat) (ch : Chunk) 
     (h : endDchunk H D c k ch useDict = .ok c2) :
     c2.hdr = c.hdr ∧ c2.dict = c.dict ∧ I1 c2 ∧ c2.data = [] ∧ ∃ plain, Good H D c.hdr plain ∧ c2.dc = c.dc ++ plain := by
   unfold endDchunk at h
+  by_cases hoom : c.hdr.compType ≠ 0 ∧ ch.len ≥ allocLimit
+  · rw [if_pos hoom] at h; cases h
+  rw [if_neg hoom] at h
   simp only [hz, ↓reduceIte] at h
   split at h
   · cases h
@@ -106,25 +145,19 @@ theorem endDchunk_ok (H : HashFn) (D : Decomp) (c : Ctx) (k : Nat) (ch : Chunk) 
 /-- invariant of the reader between loop iterations -/
 def Inv (c : Ctx) : Prop := I1 c ∧ (c.dataIdx = none → c.data = [])
 
-/-- what one loop iteration may do to "bytes handed out ++ bytes buffered for handing out":
-extend it by verified content, or (on an error that drops the buffer) keep only a prefix -/
-def StepOk (H : HashFn) (D : Decomp) (c : Ctx) (out : Bytes) : Step → Prop
-  | .cont c' out' _ => (c'.hdr = c.hdr ∧ c'.dict = c.dict) ∧ Inv c' ∧ Rel H D c.hdr (out ++ c.dc) (out' ++ c'.dc)
-  | .done r c' => (c'.hdr = c.hdr ∧ c'.dict = c.dict) ∧ Inv c' ∧
-      (Rel H D c.hdr (out ++ c.dc) (r.bytes ++ c'.dc) ∨
-       (c'.fatal = true ∧ c'.err = true ∧ c'.dc = [] ∧ ∃ rest, out ++ c.dc = r.bytes ++ rest))
+/-- what one loop iteration preserves (unit-decoded chunks): the header, the invariant, and that
+both the bytes copied to the caller's buffer and the bytes buffered for later calls are pieces of
+decoded content of verified chunks -/
+def StepOk (H : HashFn) (D : Decomp) (c : Ctx) : Step → Prop
+  | .cont c' out' _ => c'.hdr = c.hdr ∧ Inv c' ∧ Ver H D c.hdr out' ∧ Ver H D c.hdr c'.dc
+  | .done r c' => c'.hdr = c.hdr ∧ Inv c' ∧ Ver H D c.hdr r.bytes ∧ Ver H D c.hdr c'.dc
 
-theorem stepOk_done (H : HashFn) (D : Decomp) (c : Ctx) (out : Bytes) (r : RdOut) (c' : Ctx) :
-    StepOk H D c out (.done r c') = ((c'.hdr = c.hdr ∧ c'.dict = c.dict) ∧ Inv c' ∧
-      (Rel H D c.hdr (out ++ c.dc) (r.bytes ++ c'.dc) ∨
-       (c'.fatal = true ∧ c'.err = true ∧ c'.dc = [] ∧ ∃ rest, out ++ c.dc = r.bytes ++ rest))) := rfl
+theorem stepOk_done (H : HashFn) (D : Decomp) (c : Ctx) (r : RdOut) (c' : Ctx) :
+    StepOk H D c (.done r c') = (c'.hdr = c.hdr ∧ Inv c' ∧ Ver H D c.hdr r.bytes ∧ Ver H D c.hdr c'.dc) := rfl
 
-theorem stepOk_cont (H : HashFn) (D : Decomp) (c : Ctx) (out : Bytes) (c' : Ctx) (out' : Bytes) (fin : Bool) :
-    StepOk H D c out (.cont c' out' fin) =
-      ((c'.hdr = c.hdr ∧ c'.dict = c.dict) ∧ Inv c' ∧ Rel H D c.hdr (out ++ c.dc) (out' ++ c'.dc)) := rfl
+theorem stepOk_cont (H : HashFn) (D : Decomp) (c : Ctx) (c' : Ctx) (out' : Bytes) (fin : Bool) :
+    StepOk H D c (.cont c' out' fin) = (c'.hdr = c.hdr ∧ Inv c' ∧ Ver H D c.hdr out' ∧ Ver H D c.hdr c'.dc) := rfl
 
-@[simp] theorem ensureHash_dict (c : Ctx) : (ensureHash c).dict = c.dict := by unfold ensureHash; split <;> rfl
-@[simp] theorem updFull_dict (c : Ctx) (s : Bytes) : (updFull c s).dict = c.dict := by unfold updFull; split <;> rfl
 @[simp] theorem ensureHash_hdr (c : Ctx) : (ensureHash c).hdr = c.hdr := by unfold ensureHash; split <;> rfl
 @[simp] theorem ensureHash_dc (c : Ctx) : (ensureHash c).dc = c.dc := by unfold ensureHash; split <;> rfl
 @[simp] theorem ensureHash_data (c : Ctx) : (ensureHash c).data = c.data := by unfold ensureHash; split <;> rfl
@@ -143,7 +176,8 @@ theorem ensureHash_I1 (c : Ctx) (hI : I1 c) : (ensureHash c).chunkHash = some c.
   unfold updFull; split <;> rfl
 
 theorem stepRead_ok (H : HashFn) (D : Decomp) (f : Bytes) (n : Nat) (c : Ctx) (ch : Chunk) (out : Bytes)
-    (ki : Nat) (hidx : c.dataIdx = some ki) (hI : I1 c) : StepOk H D c out (stepRead f n c ch out) := by
+    (ki : Nat) (hidx : c.dataIdx = some ki) (hI : I1 c) (ho : Ver H D c.hdr out) (hd : Ver H D c.hdr c.dc) :
+    StepOk H D c (stepRead f n c ch out) := by
   unfold stepRead
   simp only
   generalize fileRead f c.pos (if c.dataLoc + n > ch.compLen then ch.compLen - c.dataLoc else n) = src
@@ -152,218 +186,161 @@ theorem stepRead_ok (H : HashFn) (D : Decomp) (f : Bytes) (n : Nat) (c : Ctx) (c
   simp only at hch
   split
   · rw [stepOk_done]
-    refine ⟨⟨by simp, by simp⟩, ⟨Or.inl (by simp [hch]), by simp [hidx]⟩, Or.inl (Rel.of_eq (by simp))⟩
+    exact ⟨by simp, ⟨Or.inl (by simp [hch]), by simp [hidx]⟩, ho, by simpa using hd⟩
   · split
     · rw [stepOk_done]
-      refine ⟨⟨by simp, by simp⟩, ⟨Or.inl (by simp [hch]), by simp [hidx]⟩, Or.inl (Rel.of_eq (by simp))⟩
+      exact ⟨by simp, ⟨Or.inl (by simp [hch]), by simp [hidx]⟩, ho, by simpa using hd⟩
     · rw [stepOk_cont]
-      refine ⟨⟨by simp, by simp⟩, ⟨Or.inl (by simp [hch, hashUpd]), by simp [hidx]⟩, Rel.of_eq (by simp)⟩
+      exact ⟨by simp, ⟨Or.inl (by simp [hch, hashUpd]), by simp [hidx]⟩, ho, by simpa using hd⟩
 
 theorem stepEnd_ok (H : HashFn) (D : Decomp) (c : Ctx) (ki : Nat) (ch : Chunk) (useDict : Bool) (out : Bytes)
-    (fin : Bool) (hz : c.hdr.compType ≠ 0) (hI : Inv c) (hm : ch ∈ c.hdr.chunks) :
-    StepOk H D c out (stepEnd H D c ki ch useDict out fin) := by
+    (fin : Bool) (hz : c.hdr.compType ≠ 0) (hI : Inv c) (hm : ch ∈ c.hdr.chunks)
+    (ho : Ver H D c.hdr out) (hd : Ver H D c.hdr c.dc) :
+    StepOk H D c (stepEnd H D c ki ch useDict out fin) := by
   unfold stepEnd
   split
-  · rw [stepOk_done]
-    exact ⟨⟨rfl, rfl⟩, hI, Or.inr ⟨rfl, rfl, rfl, c.dc, rfl⟩⟩
-  · rw [stepOk_done]
-    exact ⟨⟨rfl, rfl⟩, hI, Or.inr ⟨rfl, rfl, rfl, c.dc, rfl⟩⟩
+  · rw [stepOk_done]; exact ⟨rfl, hI, ho, hd⟩
+  · rw [stepOk_done]; exact ⟨rfl, hI, ho, Ver.nil _ _ _⟩
+  · rw [stepOk_done]; exact ⟨rfl, hI, ho, Ver.nil _ _ _⟩
   · rename_i c2 hok
-    obtain ⟨h1, h1d, h2, h3, plain, hg, hdc⟩ := endDchunk_ok H D c ki ch useDict c2 hz hI.1 hm hok
+    obtain ⟨h1, _, h2, h3, plain, hg, hdc⟩ := endDchunk_ok H D c ki ch useDict c2 hz hI.1 hm hok
     rw [stepOk_cont]
-    have hrel : Rel H D c.hdr (out ++ c.dc) (out ++ c2.dc) :=
-      ⟨[plain], by simpa using hg, by simp [hdc]⟩
+    have hv : Ver H D c.hdr c2.dc := by rw [hdc]; exact Ver.append hd (Ver.good hg)
     split
-    · exact ⟨⟨h1, h1d⟩, ⟨h2, fun _ => h3⟩, hrel⟩
-    · exact ⟨⟨h1, h1d⟩, ⟨h2, fun _ => h3⟩, hrel⟩
+    · exact ⟨h1, ⟨h2, fun _ => h3⟩, ho, hv⟩
+    · exact ⟨h1, ⟨h2, fun _ => h3⟩, ho, hv⟩
 
-/-- **one iteration** of the `comp_read` loop (unit-decoded chunks): header unchanged, checksum
-context still in step with the pending stored bytes, and "handed out ++ buffered" extended by
-verified content only (or cut back to a prefix when an error drops the buffer) -/
+/-- **one iteration** of the `comp_read` loop (unit-decoded chunks) -/
 theorem step_ok (H : HashFn) (D : Decomp) (f : Bytes) (n : Nat) (useDict : Bool) (c : Ctx) (out : Bytes)
-    (fin : Bool) (hz : c.hdr.compType ≠ 0) (hI : Inv c) :
-    StepOk H D c out (step H D f n useDict c out fin) := by
+    (fin : Bool) (hz : c.hdr.compType ≠ 0) (hI : Inv c) (ho : Ver H D c.hdr out) (hd : Ver H D c.hdr c.dc) :
+    StepOk H D c (step H D f n useDict c out fin) := by
   unfold step
   simp only
   split
-  · rw [stepOk_done]; exact ⟨⟨rfl, rfl⟩, hI, Or.inl (Rel.refl _ _ _ _)⟩
+  · rw [stepOk_done]; exact ⟨rfl, hI, ho, hd⟩
   split
-  · rw [stepOk_done]; exact ⟨⟨rfl, rfl⟩, hI, Or.inl (Rel.refl _ _ _ _)⟩
-  -- after the drain: out' ++ remaining buffer = out ++ buffer
+  · rw [stepOk_done]; exact ⟨rfl, hI, ho, hd⟩
   generalize min (n - out.length) c.dc.length = k
-  have hsplit : out ++ c.dc.take k ++ c.dc.drop k = out ++ c.dc := by
-    rw [List.append_assoc, List.take_append_drop]
+  have ho' : Ver H D c.hdr (out ++ c.dc.take k) := Ver.append ho (Ver.take k hd)
+  have hd' : Ver H D c.hdr (c.dc.drop k) := Ver.drop k hd
   split
-  · rw [stepOk_done]; exact ⟨⟨rfl, rfl⟩, hI, Or.inl (Rel.of_eq hsplit)⟩
+  · rw [stepOk_done]; exact ⟨rfl, hI, ho', hd'⟩
   split
-  · rw [stepOk_cont]; exact ⟨⟨rfl, rfl⟩, hI, Rel.of_eq hsplit⟩
+  · rw [stepOk_cont]; exact ⟨rfl, hI, ho', hd'⟩
   split
-  · rw [stepOk_done]; exact ⟨⟨rfl, rfl⟩, hI, Or.inl (Rel.of_eq hsplit)⟩
+  · rw [stepOk_done]; exact ⟨rfl, hI, ho', hd'⟩
   split
   · rename_i hc; exact absurd hc.1 hz
   split
-  · -- start of the stream: no stored bytes are pending (invariant), fresh checksum context
-    rename_i hnone
-    have hd : c.data = [] := hI.2 hnone
+  · rename_i hnone
+    have hdat : c.data = [] := hI.2 hnone
     split
     · rw [stepOk_done]
-      exact ⟨⟨rfl, rfl⟩, ⟨Or.inl (by simp [hd]), fun _ => hd⟩, Or.inl (Rel.of_eq hsplit)⟩
+      exact ⟨rfl, ⟨Or.inl (by simp [hdat]), fun _ => hdat⟩, ho', hd'⟩
     · rw [stepOk_cont]
-      exact ⟨⟨rfl, rfl⟩, ⟨Or.inl (by simp [hd]), fun _ => hd⟩, Rel.of_eq hsplit⟩
+      exact ⟨rfl, ⟨Or.inl (by simp [hdat]), fun _ => hdat⟩, ho', hd'⟩
   · rename_i ki hsome
     split
-    · rw [stepOk_done]; exact ⟨⟨rfl, rfl⟩, hI, Or.inl (Rel.of_eq hsplit)⟩
+    · rw [stepOk_done]; exact ⟨rfl, hI, ho', hd'⟩
     · rename_i ch hch
       have hm : ch ∈ c.hdr.chunks := chunkAt_mem _ ki ch hch
       split
-      · have := stepEnd_ok H D { c with dc := c.dc.drop k } ki ch useDict (out ++ c.dc.take k) fin hz hI hm
-        revert this
-        generalize stepEnd H D { c with dc := c.dc.drop k } ki ch useDict (out ++ c.dc.take k) fin = st
-        intro h
-        cases st with
-        | done r c' =>
-          rw [stepOk_done] at h ⊢
-          simp only [hsplit] at h
-          exact h
-        | cont c' out' fin' =>
-          rw [stepOk_cont] at h ⊢
-          simp only [hsplit] at h
-          exact h
+      · exact stepEnd_ok H D { c with dc := c.dc.drop k } ki ch useDict (out ++ c.dc.take k) fin hz hI hm ho' hd'
       · split
-        · rw [stepOk_done]; exact ⟨⟨rfl, rfl⟩, hI, Or.inl (Rel.of_eq hsplit)⟩
-        · have := stepRead_ok H D f n { c with dc := c.dc.drop k } ch (out ++ c.dc.take k) ki hsome hI.1
-          revert this
-          generalize stepRead f n { c with dc := c.dc.drop k } ch (out ++ c.dc.take k) = st
-          intro h
-          cases st with
-          | done r c' =>
-            rw [stepOk_done] at h ⊢
-            simp only [hsplit] at h
-            exact h
-          | cont c' out' fin' =>
-            rw [stepOk_cont] at h ⊢
-            simp only [hsplit] at h
-            exact h
-
-/-- outcome of a whole call, relative to the buffer `a` it started with -/
-def CallOk (H : HashFn) (D : Decomp) (hdr : Hdr) (a : Bytes) (r : RdOut) (c' : Ctx) : Prop :=
-  Rel H D hdr a (r.bytes ++ c'.dc) ∨
-  (c'.fatal = true ∧ c'.err = true ∧ c'.dc = [] ∧ ∃ mid rest, Rel H D hdr a mid ∧ mid = r.bytes ++ rest)
+        · rw [stepOk_done]; exact ⟨rfl, hI, ho', hd'⟩
+        · exact stepRead_ok H D f n { c with dc := c.dc.drop k } ch (out ++ c.dc.take k) ki hsome hI.1 ho' hd'
 
 theorem readLoop_ok (H : HashFn) (D : Decomp) (f : Bytes) (n : Nat) (useDict : Bool) (hdr : Hdr)
     (hz : hdr.compType ≠ 0) :
     ∀ (fuel : Nat) (c : Ctx) (out : Bytes) (fin : Bool), c.hdr = hdr → Inv c →
-      ((readLoop H D f n useDict fuel c out fin).2.hdr = hdr ∧
-       (readLoop H D f n useDict fuel c out fin).2.dict = c.dict) ∧
+      Ver H D hdr out → Ver H D hdr c.dc →
+      (readLoop H D f n useDict fuel c out fin).2.hdr = hdr ∧
       Inv (readLoop H D f n useDict fuel c out fin).2 ∧
-      CallOk H D hdr (out ++ c.dc) (readLoop H D f n useDict fuel c out fin).1
-        (readLoop H D f n useDict fuel c out fin).2
-  | 0, c, out, fin, hh, hI => by
+      Ver H D hdr (readLoop H D f n useDict fuel c out fin).1.bytes ∧
+      Ver H D hdr (readLoop H D f n useDict fuel c out fin).2.dc
+  | 0, c, out, fin, hh, hI, ho, hd => by
     unfold readLoop
-    exact ⟨⟨hh, rfl⟩, hI, Or.inl (Rel.refl _ _ _ _)⟩
-  | fuel + 1, c, out, fin, hh, hI => by
+    exact ⟨hh, hI, ho, hd⟩
+  | fuel + 1, c, out, fin, hh, hI, ho, hd => by
     unfold readLoop
-    have hs := step_ok H D f n useDict c out fin (hh ▸ hz) hI
+    have hs := step_ok H D f n useDict c out fin (hh ▸ hz) hI (hh ▸ ho) (hh ▸ hd)
     revert hs
     generalize step H D f n useDict c out fin = st
     intro hs
     cases st with
     | done r c' =>
       rw [stepOk_done] at hs
-      obtain ⟨h1, h2, h3⟩ := hs
-      refine ⟨⟨by simp [h1.1, hh], h1.2⟩, h2, ?_⟩
-      rw [hh] at h3
-      rcases h3 with h3 | ⟨e0, e1, e2, rest, e3⟩
-      · exact Or.inl h3
-      · exact Or.inr ⟨e0, e1, e2, out ++ c.dc, rest, Rel.refl _ _ _ _, e3⟩
+      obtain ⟨h1, h2, h3, h4⟩ := hs
+      rw [hh] at h3 h4
+      exact ⟨by simp [h1, hh], h2, h3, h4⟩
     | cont c' out' fin' =>
       rw [stepOk_cont] at hs
-      obtain ⟨h1, h2, h3⟩ := hs
-      rw [hh] at h3
-      have ih := readLoop_ok H D f n useDict hdr hz fuel c' out' fin' (by rw [h1.1, hh]) h2
-      obtain ⟨i1, i2, i3⟩ := ih
-      refine ⟨⟨i1.1, by rw [i1.2, h1.2]⟩, i2, ?_⟩
-      rcases i3 with i3 | ⟨e0, e1, e2, mid, rest, e3, e4⟩
-      · exact Or.inl (Rel.trans h3 i3)
-      · exact Or.inr ⟨e0, e1, e2, mid, rest, Rel.trans h3 e3, e4⟩
-
-/-- a dictionary that is needed but not loaded yet means nothing has been decoded yet -/
-def InvD (c : Ctx) : Prop :=
-  ∀ d, c.hdr.chunks.head? = some d → d.len > 0 → c.dict.isNone = true → c.dc = []
+      obtain ⟨h1, h2, h3, h4⟩ := hs
+      rw [hh] at h3 h4
+      exact readLoop_ok H D f n useDict hdr hz fuel c' out' fin' (by rw [h1, hh]) h2 h3 h4
 
 theorem compReadRaw_ok (H : HashFn) (D : Decomp) (f : Bytes) (c : Ctx) (n : Nat) (useDict : Bool)
-    (hz : c.hdr.compType ≠ 0) (hI : Inv c) :
-    (compReadRaw H D f c n useDict).2.hdr = c.hdr ∧ Inv (compReadRaw H D f c n useDict).2 := by
+    (hz : c.hdr.compType ≠ 0) (hI : Inv c) (hd : Ver H D c.hdr c.dc) :
+    (compReadRaw H D f c n useDict).2.hdr = c.hdr ∧ Inv (compReadRaw H D f c n useDict).2 ∧
+    Ver H D c.hdr (compReadRaw H D f c n useDict).2.dc := by
   unfold compReadRaw
   split
-  · exact ⟨rfl, hI⟩
+  · exact ⟨rfl, hI, hd⟩
   split
-  · exact ⟨rfl, hI⟩
+  · exact ⟨rfl, hI, hd⟩
   split
-  · exact ⟨rfl, hI⟩
-  · have := readLoop_ok H D f n useDict c.hdr hz (fuelFor f c n) c [] false rfl hI
-    exact ⟨this.1.1, this.2.1⟩
+  · exact ⟨rfl, hI, hd⟩
+  · have := readLoop_ok H D f n useDict c.hdr hz (fuelFor f c n) c [] false rfl hI (Ver.nil _ _ _) hd
+    exact ⟨this.1, this.2.1, this.2.2.2⟩
 
-/-- `import_dict`: afterwards the decoded buffer is empty and the dictionary is installed (or
-there is no dictionary and nothing changed) -/
-theorem importDict_ok (H : HashFn) (D : Decomp) (f : Bytes) (c c1 : Ctx) (d : Chunk)
-    (hz : c.hdr.compType ≠ 0) (hI : Inv c) (hd : c.hdr.chunks.head? = some d) (hlen : d.len > 0)
-    (h : importDict H D f c = some c1) :
-    c1.hdr = c.hdr ∧ Inv c1 ∧ c1.dc = [] ∧ c1.dict.isSome = true := by
-  unfold importDict at h
-  simp only [hd] at h
-  split at h
-  · omega
-  · have hraw := compReadRaw_ok H D f c d.len false hz hI
-    revert h hraw
-    generalize compReadRaw H D f c d.len false = r0
-    intro h hraw
-    split at h
-    · cases h
-    · simp only [Option.some.injEq] at h
-      subst h
-      exact ⟨hraw.1, hraw.2, rfl, rfl⟩
+/-- `import_dict`: whatever happens, the header is unchanged, the invariant holds and what is
+buffered afterwards is verified content (a successful import empties the buffer) -/
+theorem importDict_ok (H : HashFn) (D : Decomp) (f : Bytes) (c : Ctx)
+    (hz : c.hdr.compType ≠ 0) (hI : Inv c) (hd : Ver H D c.hdr c.dc) :
+    (importDict H D f c).2.hdr = c.hdr ∧ Inv (importDict H D f c).2 ∧ Ver H D c.hdr (importDict H D f c).2.dc := by
+  unfold importDict
+  split
+  · exact ⟨rfl, hI, hd⟩
+  · split
+    · exact ⟨rfl, hI, hd⟩
+    · rename_i d _ _
+      have hraw := compReadRaw_ok H D f c d.len false hz hI hd
+      revert hraw
+      generalize compReadRaw H D f c d.len false = r0
+      intro hraw
+      simp only
+      split
+      · exact ⟨hraw.1, hraw.2.1, hraw.2.2⟩
+      · exact ⟨hraw.1, hraw.2.1, Ver.nil _ _ _⟩
 
-/-- **one `zck_read` call** (unit-decoded chunks) -/
+/-- **one `zck_read` call** (unit-decoded chunks): the bytes it copies to the caller and the
+bytes it leaves buffered are pieces of decoded content of verified chunks -/
 theorem compRead_ok (H : HashFn) (D : Decomp) (f : Bytes) (c : Ctx) (n : Nat)
-    (hz : c.hdr.compType ≠ 0) (hI : Inv c) (hD : InvD c) :
-    (compRead H D f c n).2.hdr = c.hdr ∧ Inv (compRead H D f c n).2 ∧ InvD (compRead H D f c n).2 ∧
-    CallOk H D c.hdr c.dc (compRead H D f c n).1 (compRead H D f c n).2 := by
+    (hz : c.hdr.compType ≠ 0) (hI : Inv c) (hd : Ver H D c.hdr c.dc) :
+    (compRead H D f c n).2.hdr = c.hdr ∧ Inv (compRead H D f c n).2 ∧
+    Ver H D c.hdr (compRead H D f c n).1.bytes ∧ Ver H D c.hdr (compRead H D f c n).2.dc := by
   unfold compRead
   split
-  · exact ⟨rfl, hI, hD, Or.inl (Rel.refl _ _ _ _)⟩
+  · exact ⟨rfl, hI, Ver.nil _ _ _, hd⟩
   split
-  · exact ⟨rfl, hI, hD, Or.inl (Rel.refl _ _ _ _)⟩
+  · exact ⟨rfl, hI, Ver.nil _ _ _, hd⟩
   split
-  · exact ⟨rfl, hI, hD, Or.inl (Rel.refl _ _ _ _)⟩
+  · exact ⟨rfl, hI, Ver.nil _ _ _, hd⟩
   split
-  · exact ⟨rfl, hI, hD, Or.inl (Rel.refl _ _ _ _)⟩
-  · rename_i d hd
-    split
-    · rename_i hneed
-      have hdc : c.dc = [] := hD d hd hneed.1 hneed.2
-      split
-      · exact ⟨rfl, hI, hD, Or.inl (Rel.refl _ _ _ _)⟩
-      · rename_i c1 himp
-        obtain ⟨b1, b2, b3, b4⟩ := importDict_ok H D f c c1 d hz hI hd hneed.1 himp
-        have := readLoop_ok H D f n true c.hdr hz (fuelFor f c1 n) c1 [] false b1 b2
-        obtain ⟨a1, a2, a3⟩ := this
-        refine ⟨a1.1, a2, ?_, ?_⟩
-        · intro d' _ _ hn
-          rw [a1.2] at hn
-          cases hdd : c1.dict with
-          | none => rw [hdd] at b4; cases b4
-          | some x => rw [hdd] at hn; cases hn
-        · rw [hdc]; simpa [b3] using a3
-    · have := readLoop_ok H D f n true c.hdr hz (fuelFor f c n) c [] false rfl hI
-      obtain ⟨a1, a2, a3⟩ := this
-      rename_i hnn
-      refine ⟨a1.1, a2, ?_, by simpa using a3⟩
-      intro d' hd' hl' hn
-      rw [a1.1] at hd'
-      rw [hd] at hd'
-      cases hd'
-      rw [a1.2] at hn
-      exact absurd ⟨hl', hn⟩ hnn
+  · exact ⟨rfl, hI, Ver.nil _ _ _, hd⟩
+  · split
+    · split
+      · exact ⟨rfl, hI, Ver.nil _ _ _, hd⟩
+      · have himp := importDict_ok H D f c hz hI hd
+        revert himp
+        generalize importDict H D f c = r
+        intro himp
+        obtain ⟨ok, c1⟩ := r
+        cases ok with
+        | false => exact ⟨himp.1, himp.2.1, Ver.nil _ _ _, himp.2.2⟩
+        | true =>
+          simp only at himp ⊢
+          exact readLoop_ok H D f n true c.hdr hz (fuelFor f c1 n) c1 [] false himp.1 himp.2.1 (Ver.nil _ _ _) himp.2.2
+    · exact readLoop_ok H D f n true c.hdr hz (fuelFor f c n) c [] false rfl hI (Ver.nil _ _ _) hd
 
 end Zck.Reader
